@@ -741,8 +741,27 @@ func (g *Gen) lifecycleTx() Op {
 	if len(li.metas) == 0 || (len(li.metas) < 3 && r.Chance(25)) {
 		owner := g.Owners[r.Intn(len(g.Owners))]
 		d := g.newDataId()
+		alias := fmt.Sprintf("alias%d", g.dataSeq)
+		// sometimes re-create a data id that existed before (terminated, cancelled or expired)
+		if len(g.Datas) > 0 && r.Chance(35) {
+			old := g.Datas[r.Intn(len(g.Datas))]
+			alive := false
+			for _, m := range li.metas {
+				if m.DataId == old {
+					alive = true
+				}
+			}
+			if !alive {
+				d = old
+			}
+		}
+		g.Datas = append(g.Datas, d)
+		to := int32(20 + r.Intn(300))
+		if r.Chance(12) {
+			to = int32([]int{3600, 3599, 7200, 20000}[r.Intn(4)]) // timeouts of the order of the duration
+		}
 		return Op{K: "store", Creator: gw, Provider: gw + 1, Signer: owner + 1, Owner: owner + 1, Duration: []uint64{3600, 7200, 10800, 5000}[r.Intn(4)],
-			Replica: int32(1 + r.Intn(3)), Timeout: int32(20 + r.Intn(300)), Alias: fmt.Sprintf("alias%d", g.dataSeq), DataId: d, CommitId: d,
+			Replica: int32(1 + r.Intn(3)), Timeout: to, Alias: alias, DataId: d, CommitId: d,
 			Size: uint64(1 + r.Intn(3_000_000)), Operation: 1}
 	}
 	m := li.metas[r.Intn(len(li.metas))]
